@@ -54,6 +54,7 @@ if os.environ.get("C17_DEV_SCALE"):     # development only: a fraction of the bu
             if "flags" not in _p:
                 _p["cases"] = max(1, int(_p["cases"] * float(os.environ["C17_DEV_SCALE"])))
 FORK_EACH = False
+FUZZ_TARGETS = ["fuzz_form"]
 CFG = gen.Cfg(max_depth=3, leaf_dtypes=("int64", "float64", "bool", "int32", "uint8", "float32", "complex128", "int8", "uint64"), nan=False)
 PROBE_KEYS = ["x", "y", "z", "w", "0", "1", "2", "nope", "", "a b", "é", "-1", "01", "1x", " 1", "7", "99999999999", "99999999999999999999999"]
 
